@@ -595,14 +595,19 @@ Proof.
 Qed.
 
 (* with no seat to fill nobody is eligible: HighestAverages.evaluate raises (zip of an empty list) *)
-Lemma initial_quotients_zero d (vs : list (C * Q)) : initial_quotients d vs [] [] 0 = [].
+Lemma initial_quotients_nonpos d (vs : list (C * Q)) n : n <= 0 -> initial_quotients d vs [] [] n = [].
 Proof.
-  unfold initial_quotients.
+  intros Hn. unfold initial_quotients.
   match goal with |- rev (_ _ ?l) = [] => assert (E : l = []) end.
   { induction vs as [|[c v] t IH]; [reflexivity|]. cbn [flat_map]. rewrite IH.
-    unfold cap_of, dget_or. cbn [dget]. rewrite Z.ltb_irrefl. destruct (Qle_bool (d 0) 0); reflexivity. }
+    unfold cap_of, dget_or. cbn [dget]. assert (0 <? n = false) as -> by (apply Z.ltb_ge; exact Hn).
+    destruct (Qle_bool (d 0) 0); reflexivity. }
   rewrite E. reflexivity.
 Qed.
+Lemma initial_quotients_zero d (vs : list (C * Q)) : initial_quotients d vs [] [] 0 = [].
+Proof. apply initial_quotients_nonpos. lia. Qed.
+Lemma evaluate_nonpos d vs n : n <= 0 -> evaluate d vs n [] [] = HA_value_error.
+Proof. intros Hn. unfold evaluate. rewrite (initial_quotients_nonpos d vs n Hn). reflexivity. Qed.
 
 (* ------------------------------------------------------------------ the whole evaluate: partial correctness *)
 Section Whole.
